@@ -5,7 +5,8 @@ E: TLC checks Schema.tla: the workflow syntax as data is well formed, every base
 G: TLC enumerates DocMutation (Props = {"C03"}): every scalar value of every base x malformed placeholder variant
    ("${{ a.. }}", "${{ }}", "${{ 'x }}", "x ${{ ! }} y", "${{ 1 +"; only the whole-scalar ones at bool/int/float/
    single-expression positions) x quoting style x sibling configuration (max: all siblings present; min: every
-   optional sibling on the path removed; rev: nearest enclosing mapping reversed), each with the prediction
+   optional sibling on the path removed; rev: nearest enclosing mapping reversed; thorough also revall: every mapping on
+   the path reversed, and the quoting styles single/double), each with the prediction
    "at least one diagnostic located on that scalar; an expression syntax error unless the domain is event name /
    input type / permission / secrets: inherit".  The harness edits the base, renders it with known positions
    (validated against yaml.v3), runs the real Linter.Lint and maps every diagnostic back to node identities.
@@ -102,6 +103,15 @@ def run(ck, tier):
         ck.note('%d (position, configuration) pairs not applicable because the reduced/reordered reference document does '
                 'not lint clean (every position is still evaluated in another configuration), e.g. %s'
                 % (len(skipped), '; '.join('%s/%s: %s' % (k[0], k[1], w) for k, w in sorted(skipped.items())[:3])))
+    if tier == 'thorough':
+        # binding self-test: a WELL-FORMED placeholder at a template position must be judged "not reported"
+        v0 = next(v for v in vecs if v['class'] == 'template' and v['cfg'] == 'max' and v['dom'] == 'template')
+        ops = [dict(o, v='${{ github.sha }}') if o['op'] == 'set' else o for o in v0['ops']]
+        o = doclib.run(sd, schema_path, [{'b': v0['b'], 'ops': ops, 'opts': {}, 'want': [doclib.pid(v0['path'])]}], 'selftest')[0]
+        ok, _ = judge(v0, o, doclib.pid(v0['path']))
+        ck.cov['binding_selftest'] = 'rejected' if not ok else 'NOT rejected'
+        if ok:
+            raise Inconclusive('binding self-test failed: a well-formed placeholder was judged as reported')
     ck.cov['evaluations'] += len(runs.items)
     ck.cov['traces_validated_against_impl'] += nvec
     ck.cov['distinct_nontrivial'] += nvec
